@@ -45,7 +45,14 @@ claim("C20", "table extraction over go/ssa (outcome switch, runFailed dependence
       "errors of getTestFiles/ReadFile/Compile/RunExpr/Report reach RunTests' result, doTest and os.Exit(1); (R20d) ForeachLeaf recurses for exactly "
       "Array, Dict, Tuple and reports everything else as a leaf. Leaf path strings and the recursion over all trees are not decided.", NOTE, "DESIGN.md §3 C20")
 
-for pid in ["C02","C04","C05","C07","C09","C10","C11","C12","C13","C15","C16","C17","C18"]:
+claim("C17", "actor-goroutine closure over the VTA call graph (interpreter dispatch cut), channel-operation provenance, path counting of reply sends, SSA value identity for install/notify order",
+      "Decides structural necessary conditions of the engine's actor loop: (R17a) nothing that runs on the engine goroutine touches the engine's own "
+      "mailbox channels; (R17b) every update request is answered exactly once on every path; (R17c) watchers are sent exactly the scope produced by "
+      "installing this request's value, after installation, the loop carries that scope, a failed update leaves it unchanged, a new watcher gets the "
+      "current scope; (R17d) no unchecked map-miss dereference; (R17e) every evaluation on the actor is under a recover; (R17f) no blocking send to a "
+      "client-owned channel; (R17g) no goroutine spawned from the loop (serial delivery). Ordering/fairness between concurrent clients is not decided.", NOTE, "DESIGN.md §3 C17")
+
+for pid in ["C02","C04","C05","C07","C09","C10","C11","C12","C13","C15","C16","C18"]:
     na(pid, "check under construction in this session (see DESIGN.md §3); not claimed until its rules are registered")
 na("C14", "agreement of a hand-written array matcher with strings/bytes over all sequences is a relation between runtime values computed by "
           "loops with data-dependent indices; no sound structural clause with teeth exists (DESIGN.md §3 C14)")
